@@ -132,7 +132,7 @@ func Run(target string, data []byte) (res *Result) {
 		} else {
 			run()
 		}
-		if r.maxReq > limit+16 {
+		if r.maxReq > limit {
 			return viol("over-limit-request/stream-header", "header reader requested %d bytes (limit %d)", r.maxReq, limit)
 		}
 		if err == nil {
@@ -382,7 +382,7 @@ func Run(target string, data []byte) (res *Result) {
 func Seeds(target string) [][]byte {
 	le := func(v uint32) []byte { b := make([]byte, 4); binary.LittleEndian.PutUint32(b, v); return b }
 	uv := func(v uint64) []byte { b := make([]byte, 10); return b[:binary.PutUvarint(b, v)] }
-	hostile := [][]byte{{}, {0}, {0xff}, le(0), le(1), le(0xffffffff), le(1 << 31), uv(100000), uv(100001), uv(1 << 31), uv(1 << 62),
+	hostile := [][]byte{{}, {0}, {0xff}, le(0), le(1), le(0xffffffff), le(1 << 31), le(256), le(257), append(le(257), make([]byte, 300)...), uv(100000), uv(100001), uv(1 << 31), uv(1 << 62),
 		{0x80, 0x80, 0x80, 0x80, 0x80, 0x80, 0x80, 0x80, 0x80, 0x80, 0x01}, bytes.Repeat([]byte{0xff}, 40)}
 	var valid [][]byte
 	k := gen.Key(1)
@@ -392,7 +392,8 @@ func Seeds(target string) [][]byte {
 	case "stream-header":
 		valid = append(valid, transport_controller.VerifMarshalStreamEstablishHeader(transport_controller.NewStreamEstablish("bifrost/echo")),
 			append(transport_controller.VerifMarshalStreamEstablishHeader(transport_controller.NewStreamEstablish("p")), 1, 2, 3),
-			append([]byte{0x85}, transport_controller.VerifMarshalStreamEstablishHeader(transport_controller.NewStreamEstablish("big"))...))
+			append([]byte{0x85}, transport_controller.VerifMarshalStreamEstablishHeader(transport_controller.NewStreamEstablish("big"))...),
+			append(uv(100000), make([]byte, 12)...), append(uv(100001), make([]byte, 12)...), append(uv(100002), make([]byte, 12)...))
 	case "packet-conn", "packet-session":
 		h := &hash.Hash{HashType: 1, Hash: bytes.Repeat([]byte{7}, 32)}
 		hb, _ := h.MarshalVT()
